@@ -5,6 +5,7 @@ import SameVerif.Spec.OracleC16
 import SameVerif.Model.Events
 import SameVerif.Model.HeaderSem
 import SameVerif.Model.Spawner
+import SameVerif.Spec.FrontEndCheck
 import SameVerif.Model.Time
 import SameVerif.Spec.OracleC15
 import SameVerif.Model.Framer
@@ -806,6 +807,30 @@ def handleSpec (name : String) (ins ans : List String) : String :=
         | some h, some hm, some tm => optVerdict (Spec.oracleSigC02 h hm tm (lone == "1") msgs)
         | _, _, _ => "FAIL unparsable"
       | _, _ => "FAIL unparsable"
+    | "fe" =>
+      -- arg: me;pb;ib;obs;bytes;payload@hint,payload@hint,…   (front-end assumptions on a tapped run)
+      match arg.splitOn ";" with
+      | [me, pb, ib, obs, bytes, bursts] =>
+        let bl := (bursts.splitOn ",").mapM (fun w => match w.splitOn "@" with
+          | [p, h] => (match unhex p, h.toNat? with | some p, some h => some (p, h) | _, _ => none)
+          | _ => none)
+        match me.toNat?, pb.toNat?, ib.toNat?, unhex bytes, bl with
+        | some me, some pb, some ib, some bytes, some bl =>
+          let os : List Obs := obs.toList.map (fun ch => let v := ch.toNat - 48; ⟨v % 2 == 1, v / 2 % 2 == 1, v / 4 % 2 == 1⟩)
+          let ticks := Spec.ticksOf ⟨me, ⟨pb, ib⟩⟩ os bytes
+          let rs := Spec.checkTransmission me ticks bl
+          -- the verdict is `decide` of the theorems' hypothesis `Spec.StreamObserved` on the positions found
+          let (allOk, why) := match Spec.segsOfResults bl rs with
+            | some segs =>
+              if Spec.streamObservedB me ticks segs then (true, "sat")
+              else (false, s!"unsat:{Spec.streamObservedWhy me ticks segs}")
+            | none => (false, "n/a")
+          let parts := rs.map (fun r => match r with
+            | .ok k => s!"sat:acq={k.acq}:rel={k.rel}"
+            | .error e => s!"unsat:{e}")
+          s!"ok fe_all={if allOk then "sat" else "unsat"} " ++ " ".intercalate (parts.map (fun p => s!"fe_burst={p}")) ++ s!" fe_stream={why}"
+        | _, _, _, _, _ => "FAIL unparsable"
+      | _ => "FAIL unparsable"
     | "c08hold" =>
       match arg.splitOn ";", parseSigEvs ans with
       | [rate, h], some evs =>
